@@ -253,7 +253,7 @@ def check_pow(mp, rec, r, cell, z, n, p, via):
             key = 'C04/pow/square'
         elif axis:
             bc = max(z[0][3], z[1][3])
-            key = 'C04/pow/axis-operand/' + ('real-power-exact-path' if bc * n < 1000 or n <= 2 else 'real-power-inexact-path')
+            key = 'C04/pow/axis-operand/' + ('real-power-exact-path' if bc * n < 10000 or n <= 2 else 'real-power-inexact-path')
             # the inexact real power is documented to stay within one ulp: anything worse (or in the wrong slot) is another mechanism
             for g, x in zip(got, ex):
                 if x.n == 0:
@@ -500,7 +500,8 @@ def run_case(mp, rec, r, i):
         elif op == 'powaxis':
             z = gen_z(r, p, r.choice(['purere', 'pureim']), grid=True)
             bc = max(z[0][3], z[1][3], 1)
-            n = r.choice([0, 1, 2, 3, 4, 5, 6, 7, r.randint(0, 60), max(3, 1000 // bc + r.randint(-1, 1)), max(3, 8000 // (bc + 1))])
+            n = r.choice([0, 1, 2, 3, 4, 5, 6, 7, r.randint(0, 60), max(3, 1000 // bc + r.randint(-1, 1)), max(3, 8000 // (bc + 1)),
+                          max(3, 10000 // bc + r.randint(-1, 1))])
         elif op == 'powedge':
             # around the size where the exact algorithm is given up
             z = gen_z(r, p, r.choice(['generic', 'gap', 'short', 'long']), grid=True)
